@@ -120,9 +120,41 @@ pub fn c07_check_bytes(ctx: &mut Ctx, bytes: &[u8], texts: &[Vec<char>], mirror:
                 return Err(("C07:short_reads_change_the_model".into(), J::i(step)));
             }
         }
+        // serialise, edit, serialise again: the second image must describe the edited model
+        if let Some(mir) = mirror {
+            let mut m4 = Model::read_slice(bytes).map_err(|e| ("C07:own_serialisation_rejected_by_read_slice".to_string(), J::s(format!("{e}"))))?.0;
+            let _ = m4.to_vec();
+            let mut sink = vec![];
+            let _ = m4.write(&mut sink);
+            let mut edited = mir.clone();
+            edited.dict_model.reverse();
+            if let Some(first) = edited.dict_model.first_mut() {
+                first.weights.iter_mut().for_each(|w| *w = if *w == 7 { 8 } else { 7 });
+                first.comment.push('x');
+            } else {
+                edited.dict_model.push(mirror::WordWeightRecord { word: "新".into(), weights: vec![1, 2], comment: String::new() });
+            }
+            let recs: Vec<vaporetto::WordWeightRecord> = edited
+                .dict_model
+                .iter()
+                .map(|r| vaporetto::WordWeightRecord::new(r.word.clone(), r.weights.clone(), r.comment.clone()))
+                .collect::<Result<_, _>>()
+                .map_err(|e| ("C07:dictionary_record_rejected".to_string(), J::s(format!("{e}"))))?;
+            m4.replace_dictionary(recs);
+            let after = m4.to_vec().map_err(|e| ("C07:to_vec_failed".to_string(), J::s(format!("{e}"))))?;
+            let mut after_w = vec![];
+            m4.write(&mut after_w).map_err(|e| ("C07:write_failed".to_string(), J::s(format!("{e}"))))?;
+            let want = edited.to_bytes();
+            if after != want || after_w != want {
+                return Err((
+                    "C07:image_written_after_an_edit_is_not_the_edited_model".into(),
+                    J::obj(vec![("equals_image_before_edit", J::B(after == bytes || after_w == bytes)), ("edited_model", J::s(edited.summary()))]),
+                ));
+            }
+        }
         Ok(())
     });
-    ctx.eval(6);
+    ctx.eval(7);
     match r {
         Ok(Ok(())) => {}
         Ok(Err((sig, what))) => viol!(&sig, vec![("what", what)]),
@@ -304,6 +336,31 @@ pub fn run_c07(ctx: &mut Ctx, from: u64, to: u64) {
             }
             continue;
         }
+        if k == 2 || k % 500 == 499 {
+            // one dictionary word of more than 32767 bytes but far fewer characters, occurring in the text
+            let n = if k == 2 { 11_000 } else { rng.urange(10_923, 12_000) };
+            let word: Vec<char> = (0..n).map(|i| char::from_u32(0x4E00 + ((i * 31 + k as usize) % 20000) as u32).unwrap()).collect();
+            let mut weights = vec![0i32; n + 1];
+            weights[0] = 9;
+            weights[n] = 11;
+            weights[n / 2] = -5;
+            let m = ModelData {
+                bias: -2,
+                char_window_size: 2,
+                type_window_size: 1,
+                char_ngram_model: vec![mirror::NgramData { ngram: "あ".into(), weights: vec![1, 2, 3, 4] }],
+                dict_model: vec![mirror::WordWeightRecord { word: word.iter().collect(), weights, comment: String::new() }],
+                ..ModelData::default()
+            };
+            let mut text = vec!['あ', 'x'];
+            text.extend(&word);
+            text.extend(['y', 'あ']);
+            let bytes = m.to_bytes();
+            ctx.count("models_with_dictionary_word_longer_than_32767_bytes", 1);
+            c07_check_bytes(ctx, &bytes, &[text], Some(&m), &mut rng, false);
+            ctx.nontrivial(fnv(&bytes));
+            continue;
+        }
         let mut o = GenOpts::default();
         let full = k % 4 != 0;
         if full {
@@ -383,8 +440,20 @@ pub fn run_c19lib(ctx: &mut Ctx, from: u64, to: u64) {
         let mut o = GenOpts::default();
         o.max_text_len = 80;
         o.tags = TagMode::Maybe;
-        let case = gen_case(&mut rng, &o);
-        let newd = gen_dict(&mut rng, &case);
+        let mut case = gen_case(&mut rng, &o);
+        let mut newd = gen_dict(&mut rng, &case);
+        if k % 40 == 7 {
+            // the edit adds (or removes) an entry that cancels its own suffix inside a longer entry
+            let (c, s1_at) = vgen::gen::cancelling_case(&mut rng);
+            case = c;
+            newd = case.model.dict_model.clone();
+            if rng.chance(1, 2) {
+                case.model.dict_model.remove(s1_at);
+            } else {
+                newd.remove(s1_at);
+            }
+            ctx.count("edits_adding_or_removing_entry_that_cancels_its_suffix", 1);
+        }
         let detail = |extra: Vec<(&str, J)>| {
             let mut kv = vec![("model", model_json(&case.model)), ("new_dictionary", J::A(newd.iter().map(|d| J::obj(vec![("word", J::s(&d.word)), ("weights", J::ints(&d.weights))])).collect()))];
             kv.extend(extra);
